@@ -82,6 +82,20 @@ def make_files(tier, seed, mdl):
              b"\n" * 50, ("é" * 3000).encode() + b"@a.com\n", b"x@y.zz\n" * 200]
     for f in fixed:
         files.append(f)
+    # a truncated UTF-8 lead at the very end of the (first) line, for line lengths around the sizes getline's buffer takes
+    tails = [b"\xc3", b"\xe2", b"\xe2\x82", b"\xf0", b"\xf0\x9f", b"\xf0\x9f\x98"]
+    lens = list(range(112, 124)) + list(range(234, 246)) + [478, 479, 480, 958, 959, 960, 1918, 1919, 1920, 4094, 4095, 4096]
+    if tier != "quick":
+        lens = list(range(100, 300)) + lens
+    k = 0
+    for L in lens:
+        for t in (tails if tier != "quick" else [tails[k % len(tails)], tails[(k + 3) % len(tails)]]):
+            k += 1
+            body = b"a" * (L - len(t) - 6) + b"@b.com"[:0] + b"a@b.c" + b"x" + t
+            body = (b"a" * max(0, L - len(body))) + body
+            files.append(body + b"\n")
+            files.append(body)
+            files.append(b"q" * (L - len(t)) + t + b"\nnext@line.com\n")
     while len(files) < nfiles:
         n = rng.choice([1, 2, 3, 5, 10, 40, 200])
         term = rng.choice([b"\n", b"\n", b"\r\n"])
